@@ -88,6 +88,8 @@ func c12Alphabet() []seqEnv {
 		{Hdr: true, Method: "", Dst: "srv"},                                     // empty method
 		{Hdr: true, Method: "/nope.Svc/X", Dst: "srv", Body: true},              // unknown service
 		{Hdr: true, Method: "/verif.Echo/Nope", Dst: "srv", Body: true},         // unknown method
+		{Hdr: true, Method: "//verif.Echo/Unary", Dst: "srv", Body: true},       // two leading slashes: service "/verif.Echo" does not exist
+		{Hdr: true, Method: "///verif.Echo/Bidi", Dst: "srv"},                   // … likewise for a stream open
 		{Hdr: true, Method: s, Dst: "srv"},                                      // stream open
 		{Hdr: true, Method: s, Dst: "srv", Meta: 1},                             // stream open with metadata
 		{Hdr: true, Method: s, Dst: "srv", Meta: 2},                             // stream open, undecodable metadata
